@@ -21,7 +21,8 @@ EXPLANATION = (
     "alias written by hand (literal IDX_ macros in templates and sources, the grackle alias table, KROME's idx_ suffix rewriting); R7 the species "
     "collection is a set: Species.__hash__ reads only what every satisfied __eq__ disjunct forces equal (shared with C15.R2); R8 no lazily "
     "filtered Jinja sequence (map/select/reject.. without list) is consumed twice without being re-bound; R9 Network.species is a total, "
-    "name-tie-broken sort.")
+    "name-tie-broken sort; R13 the order of species (Species.__lt__) compares a key that holds the name, so that no two species tie and sorted() "
+    "of a set does not depend on the hash seed.")
 ASSUMPTIONS = [
     "uniqueness of aliases for user-defined element lists (e.g. CO vs Co) is not decided",
     "Jinja's map/select/reject/selectattr/rejectattr filters return one-shot generators",
@@ -66,7 +67,65 @@ def check(ctx):
     # computed from (shared with C14.R6) -- a stale view gives a species no slot, or a slot to a species that is gone
     from .c14 import _r6 as live_views
     ctx.absorb(lambda sub: live_views(sub, package(sub.tree)), "R12", only=lambda o: any(k in o.key for k in ("Network.species:", "Network.elements:")) and o.outcome != "MISSING")
+    order_key_rule(ctx, pkg, "R13")
     _stable_keys(ctx)
+
+
+def order_key_rule(ctx, pkg, rule="R13"):
+    """Network.species sorts SETS of species (`sorted(members)`, and the species itself as the tie-break of the connectivity key): the
+    result is independent of the set's iteration order -- which changes with the hash seed from one process to the next -- only if
+    `Species.__lt__` never lets two different species tie.  Species that differ have different names, so: the key `__lt__`
+    compares holds the name.  A key made of derived attributes only (basename, charge, alias ..) ties a gas species with its ice
+    twin, and their two slots are swapped at random between the run that writes the macro header and the run that writes a patch."""
+    from ..valueflow import subst as vsubst
+    fn = pkg.cls("Species").methods.get("__lt__")
+    K = "Species.__lt__:key holds the name"
+    if fn is None:
+        ctx.missing(rule, K, (SP, pkg.cls("Species").node.lineno), "Species.__lt__ vanished (sorted(species) needs it)")
+        return
+    ctx.saw(SP, "Species.__lt__")
+    if len(fn.args.args) != 2:
+        ctx.unrec(rule, K, (SP, fn.lineno), "unexpected signature of __lt__")
+        return
+    me, other = ("param", fn.args.args[0].arg), ("param", fn.args.args[1].arg)
+    fl = Flow(fn, SP, resolver=lambda name: pkg.resolve("Species", name)[1])
+
+    def leaves(v):
+        v = simp(v)
+        if v[0] in ("phi", "ifexp") and len(v) == 4:
+            return leaves(v[2]) + leaves(v[3])
+        return [v]
+    cmps = [v for f in fl.facts if f.kind == "return" for v in leaves(f.value) if v not in (("global", "NotImplemented"), ("const", False), ("const", None))]
+    if not cmps:
+        ctx.unrec(rule, K, (SP, fn.lineno), "no comparison is returned by Species.__lt__")
+        return
+    verdicts = []
+    for v in cmps:
+        if not (v[0] == "cmp" and len(v[1]) == 1 and v[1][0] in ("Lt", "Gt")):
+            verdicts.append(("unrec", v))
+            continue
+        a, b = v[2] if v[1][0] == "Lt" else (v[2][1], v[2][0])
+        if simp(vsubst(a, {me: other})) != b or not any(x == me for x in walk(a)):
+            verdicts.append(("unrec", v))       # the two sides are not one key taken of self and of the other species
+            continue
+        comps = list(a[1]) if a[0] == "tuple" and not any(e[0] == "star" for e in a[1]) else [a]
+        if any(c == ("attr", me, "name") for c in comps):
+            verdicts.append(("ok", v))
+        elif comps and all(c[0] == "attr" and c[1] == me and c[2] not in ("name", "_name") for c in comps):
+            verdicts.append(("bad", v))         # derived attributes only: species that share them tie
+        else:
+            verdicts.append(("unrec", v))
+    bad = [v for k, v in verdicts if k == "bad"]
+    unrec = [v for k, v in verdicts if k == "unrec"]
+    if bad:
+        ctx.bad(rule, K, (SP, fn.lineno), "Species.__lt__ orders by a key that leaves out the name: species that differ only in what the key omits (a gas species and its ice twin, "
+                "spellings with another prefix) tie, sorted() keeps them in set-iteration order, and that order -- hence the IDX_ slot of each -- changes with the hash seed from one "
+                "process to the next: artefacts written by separate runs (macro header, python constants, enzo tables) disagree",
+                expected="self.name < o.name (or a tuple key holding self.name)", found=show(bad[0])[:140])
+    elif unrec:
+        ctx.unrec(rule, K, (SP, fn.lineno), f"the comparison Species.__lt__ makes is not understood: {show(unrec[0])[:120]}")
+    else:
+        ctx.ok(rule, K, (SP, fn.lineno), "species are ordered by a key that holds the name: two different species never tie")
 
 
 def _stable_keys(ctx):
@@ -168,6 +227,8 @@ def _alias_rule(ctx, pkg):
         post += [(extra.line, r) for r in wr]
     v, wr = _peel_rewrites(v)
     post += [(st[0].line, r) for r in wr]
+    v_inner = v
+    _element_case_scope(ctx, fl)
     # two species are one ODE slot exactly when their aliases are equal: every rewrite of the alias must keep distinct
     # names distinct.  Deleting characters does not ('H2*' -> 'H2I' is the alias of 'H2').
     for ln, (what, pat, repl) in post:
@@ -176,7 +237,11 @@ def _alias_rule(ctx, pkg):
             ctx.bad("R6", k, (SP, ln), "the alias is rewritten by DELETING characters: species whose names differ only in the deleted characters (an excited state 'H2*' and 'H2', isomers 'c-C3H2'/'cC3H2') "
                     "get one identifier, hence one IDX_ macro and one ODE variable", expected="an injective function of (surface, basename, charge)", found=f"{what}({pat!r}, '')")
         elif repl is None:
-            ctx.unrec("R6", k, (SP, ln), "alias rewrite with a non-literal replacement")
+            if re.search(_ELEMENT_TABLES, str(pat)) and any(x in (("attr", SELF, "charge"), ("attr", SELF, "is_surface")) for x in walk(v_inner)):
+                ctx.bad("R6", "Species.alias:suffix outside the element-case rewriting", (SP, ln), _FUSE_MSG, expected="the table of element symbols rewrites the base name only; 'G' and the I/M run are attached afterwards",
+                        found=f"{what}({pat}) over {show(v_inner)[:80]}")
+            else:
+                ctx.unrec("R6", k, (SP, ln), "alias rewrite with a non-literal replacement")
         else:
             ctx.ok("R6", k, (SP, ln), f"characters are substituted by {repl!r}, none deleted (collisions between the substituted characters themselves are not decided)")
     out["line"] = st[0].line
@@ -233,6 +298,43 @@ def _alias_rule(ctx, pkg):
 
 class FoldError(Exception):
     pass
+
+
+_ELEMENT_TABLES = r"_known_elements|known_elements|periodic_table|isotopes_table|\.Symbol|_replacement|_standard_symbols"
+_FUSE_MSG = ("the table that re-spells upper-case element symbols is applied to the ASSEMBLED alias: the letters of the charge run (I / M) and of the phase marker (G) take part in the "
+             "replacement and fuse with the base name into an element symbol -- 'S+' -> 'SII' -> 'SiI', the alias of neutral 'SI' -- so two species share one IDX_ macro")
+
+
+def _element_case_scope(ctx, fl):
+    """The alias is <phase><base name><charge run>, and two species share a slot exactly when their aliases are equal.  A rewriting
+    of the text keyed by ELEMENT SYMBOLS (the upper-case -> standard spelling table: patterns are letters) is therefore confined to
+    the base name: run over text that already holds the 'G' / 'I..' / 'M..' letters, a symbol can match across the seam.  By role:
+    every local the getter (helpers put back in place) re-binds in a loop to a `.replace(..)` / re.sub of itself whose pattern comes
+    from an element table -- the text it starts from must not depend on the charge or the phase."""
+    for name, lst in fl.assigns.items():
+        for v, loops, guards, line, seq in lst:
+            if not loops:
+                continue
+            w = simp(v)
+            pat = None
+            if w[0] == "meth" and w[2] == "replace" and len(w[3]) >= 2 and w[1][0] == "carried" and w[1][1] == name:
+                pat = w[3][0]
+            elif w[0] == "meth" and w[1] == ("global", "re") and w[2] == "sub" and len(w[3]) >= 3 and w[3][2][0] == "carried" and w[3][2][1] == name:
+                pat = w[3][0]
+            if pat is None or pat[0] == "const" or not re.search(_ELEMENT_TABLES, show(pat)):
+                continue
+            inits = [e for e in lst if not e[1] and e[4] < seq]
+            if not inits:
+                continue
+            start = simp(inits[-1][0])
+            K = "Species.alias:suffix outside the element-case rewriting"
+            if any(x in (("attr", SELF, "charge"), ("attr", SELF, "is_surface")) for x in walk(start)):
+                ctx.bad("R6", K, (SP, line), _FUSE_MSG, expected="the table of element symbols rewrites the base name only; 'G' and the I/M run are attached afterwards",
+                        found=f"{name} = {show(start)[:100]}; then {name} = {show(w)[:80]} in a loop")
+            elif any(isinstance(x, tuple) and x and x[0] in ("unknown", "call", "meth", "acc", "carried", "after", "phi") for x in walk(start)) and start != ("attr", SELF, "basename"):
+                ctx.unrec("R6", K, (SP, line), f"the text the element-case table rewrites is not understood: {show(start)[:100]}")
+            else:
+                ctx.ok("R6", K, (SP, line), "the element-case table rewrites the base name before the phase marker and the charge run are attached")
 
 
 def class_table(pkg, cname, attr):
@@ -1916,3 +2018,25 @@ BENIGN += [{"name": "index-printed-through-format", "edits": [
     {"file": MACROS, "old": "#define IDX_{{ spec.alias }} {{ loop.index0 }}", "new": '#define IDX_{{ spec.alias }} {{ "%d" | format(loop.length - loop.revindex) }}'},
     {"file": PYIDX, "old": "IDX_{{ spec.alias }} = {{ loop.index0 }}", "new": 'IDX_{{ spec.alias }} = {{ "{}".format(loop.index0) }}'}]}]
 MUTANTS += [{"name": "index-printed-through-format-one-based", "file": MACROS, "old": "#define IDX_{{ spec.alias }} {{ loop.index0 }}", "new": '#define IDX_{{ spec.alias }} {{ "%d" | format(loop.index) }}', "rules": ["R4"]}]
+
+# --- third hardening wave ---------------------------------------------------------------------------------------------------------
+_LT_OLD = "            return self.name < o.name\n        return NotImplemented\n\n    def __repr__"
+MUTANTS += [
+    {"name": "species-ordered-by-basename-and-charge", "file": SP, "old": _LT_OLD, "new": "            return (self.basename, self.charge) < (o.basename, o.charge)\n        return NotImplemented\n\n    def __repr__", "rules": ["R13"]},
+    {"name": "species-ordered-by-alias", "file": SP, "old": _LT_OLD, "new": "            return o.alias > self.alias\n        return NotImplemented\n\n    def __repr__", "rules": ["R13"]},
+]
+BENIGN += [
+    {"name": "species-ordered-by-name-then-charge", "file": SP, "old": _LT_OLD, "new": "            return (self.name, self.charge) < (o.name, o.charge)\n        return NotImplemented\n\n    def __repr__"},
+    {"name": "species-order-guard-clause-and-swapped-sides", "file": SP, "old": "        if isinstance(o, Species):\n" + _LT_OLD,
+     "new": "        if not isinstance(o, Species):\n            return NotImplemented\n        return o.name > self.name\n\n    def __repr__"},
+]
+_ALIAS_FORMAT = ('            self._alias = "{}{}{}".format(\n                "G" if self.is_surface else "",\n                basename,\n'
+                 '                "I" * (self.charge + 1) if self.charge >= 0 else "M" * abs(self.charge),\n            )\n')
+_ALIAS_LOOP = "            for key, value in replacement.items():\n                basename = basename.replace(key, value)\n"
+MUTANTS += [
+    {"name": "element-case-table-applied-to-the-assembled-alias", "edits": [
+        {"file": SP, "old": _ALIAS_LOOP, "new": ""},
+        {"file": SP, "old": _ALIAS_FORMAT, "new": '            text = "{}{}{}".format(\n                "G" if self.is_surface else "",\n                basename,\n'
+         '                "I" * (self.charge + 1) if self.charge >= 0 else "M" * abs(self.charge),\n            )\n'
+         "            for key, value in replacement.items():\n                text = text.replace(key, value)\n            self._alias = text\n"}], "rules": ["R6"]},
+]
